@@ -4619,6 +4619,11 @@ class ParameterizedMetaclass(type):
                 # must not share the table itself: watchers registered on
                 # either class from now on concern that class only
                 parameter.watchers = {what: list(ws) for what, ws in inherited.watchers.items()}
+                # ... nor any other mutable attribute (e.g. a Selector's objects)
+                for slot in parameter.__class__._all_slots_:
+                    slot_value = getattr(parameter, slot)
+                    if slot not in ('default', 'watchers') and _is_mutable_container(slot_value):
+                        setattr(parameter, slot, copy.copy(slot_value))
                 _copied_in_edit_constant(inherited, parameter)
                 type.__setattr__(mcs,attribute_name,parameter)
                 # This class (and its subclasses) now has its own Parameter
